@@ -184,6 +184,7 @@ func AverageStats(stats []*Stats) *Stats {
 			stat.Lock()
 			value, ok := stat.values[k]
 			if !ok {
+				stat.Unlock()
 				continue
 			}
 			values = append(values, value)
